@@ -62,6 +62,22 @@ impl Handler<SyncSenderRequest> for ClusteSyncSender {
     type Result = ResponseActFuture<Self, anyhow::Result<SyncSenderResponse>>;
 
     fn handle(&mut self, msg: SyncSenderRequest, _ctx: &mut Self::Context) -> Self::Result {
+        #[cfg(rnacos_verif)]
+        {
+            // verification hook: while capture is on, the request is recorded instead of sent
+            let from = self
+                .send_extend_infos
+                .get(GRPC_HEAD_KEY_CLUSTER_ID)
+                .and_then(|v| v.parse().ok())
+                .unwrap_or(0);
+            if crate::verif_hooks::sync::capture(from, self.target_id, &msg.0) {
+                return Box::pin(
+                    async { Ok(SyncSenderResponse::None) }
+                        .into_actor(self)
+                        .map(|r, _act, _ctx| r),
+                );
+            }
+        }
         let cluster_sender = self.cluster_sender.clone();
         let target_addr = self.target_addr.clone();
         let mut send_extend_infos = self.send_extend_infos.clone();
